@@ -46,6 +46,12 @@ func API.mapDecodeMap
   ghost after call New #1: keyfresh = true
   ghost after call New #2: elemfresh = true
   ghost before call Value.SetMapIndex: assert keyfresh && elemfresh
+  ghost local probed Bool         -- the map has been asked for the decoded key since the last entry was stored (ghost)
+  ghost local found Bool          -- ... and had it (ghost)
+  ghost after call Value.IsValid: probed = true
+  ghost after call Value.IsValid: found = result
+  ghost before call Value.SetMapIndex: assert probed && !found
+  ghost after call Value.SetMapIndex: probed = false
   ghost after call Value.SetMapIndex: keyfresh = false
   ghost after call Value.SetMapIndex: elemfresh = false
 
@@ -110,4 +116,27 @@ func LengthPrefixTypeSize
   ensures t == LengthPrefixTypeAsUint32 ==> r0 == 4 && r1 == nil
   ensures t == LengthPrefixTypeAsUint64 ==> r0 == 8 && r1 == nil
   ensures !(t == LengthPrefixTypeAsByte || t == LengthPrefixTypeAsUint16 || t == LengthPrefixTypeAsUint32 || t == LengthPrefixTypeAsUint64) ==> r1 != nil && r0 == 0
+
+-- ---------------------------------------------------------------------------------------------------------------
+-- binary map decoding: the entries are read as a sequence whose rules demand byte-lexical order (ensureOrdering), and an
+-- entry is stored only after the map has been probed for its key and did not have it - a repeated key is an error, not
+-- an overwrite (what the probe and the store do is reflect's business: only their order and the decision are checked)
+func API.decodeMap
+  requires api != nil && opts != nil && valueType != nil
+  modifies everything
+  ghost before call API.decodeSequence: assert arg4.lexicalOrdering != nil && *arg4.lexicalOrdering && arg4.arrayRules != nil
+  ghost local premode Int         -- the validation mode of the caller's rules when the ordering is imposed (ghost)
+  ghost before call TypeSettings.ensureOrdering: premode = (arg0.arrayRules == nil ? 0 : arg0.arrayRules.ValidationMode)
+  ghost before call API.decodeSequence: assert arg4.arrayRules.ValidationMode == bitor(premode, serializer.ArrayValidationModeLexicalOrdering)
+
+func API.decodeMap$1
+  requires api != nil && valueType != nil && *valueType != nil && value != nil && opts != nil && ctx != nil
+  modifies everything
+  ghost local probed Bool       -- the map has been asked for the decoded key (ghost)
+  ghost local found Bool        -- ... and had it (ghost)
+  ghost at entry: probed = false
+  ghost after call Value.IsValid: probed = true
+  ghost after call Value.IsValid: found = result
+  ghost before call Value.SetMapIndex: assert probed && !found
+  ensures probed && found ==> err != nil && bytesRead == 0
 @*/
